@@ -248,11 +248,15 @@ func c13Check(c *fw.Ctx, m c13Model, key uint64) fw.Outcome {
 	}
 	// every reference left resolves
 	resolve := func(st *astisub.Style, from string) string {
-		for st != nil {
-			if s.Styles[st.ID] == nil {
+		// references resolve through identifiers: the definition is the one stored under the ID
+		seen := map[string]bool{}
+		for st != nil && !seen[st.ID] {
+			seen[st.ID] = true
+			def := s.Styles[st.ID]
+			if def == nil {
 				return fmt.Sprintf("style %s referenced from %s is no longer defined", st.ID, from)
 			}
-			st = st.Style
+			st = def.Style
 		}
 		return ""
 	}
@@ -265,7 +269,8 @@ func c13Check(c *fw.Ctx, m c13Model, key uint64) fw.Outcome {
 				if s.Regions[it.Region.ID] == nil {
 					return fw.Bad(key, m.desc, "after Optimize on {%s}: region %s of cue %d is no longer defined", m.desc, it.Region.ID, k)
 				}
-				if msg := resolve(it.Region.Style, "region "+it.Region.ID); msg != "" {
+				// the region's definition is the one stored under its identifier
+				if msg := resolve(s.Regions[it.Region.ID].Style, "region "+it.Region.ID); msg != "" {
 					return fw.Bad(key, m.desc, "after Optimize on {%s}: %s", m.desc, msg)
 				}
 			}
@@ -385,6 +390,61 @@ func c13RemoveStyling(m c13Model, key uint64) fw.Outcome {
 	return fw.OK(key, nil)
 }
 
+// c13Clash merges two lists that define the same identifier X with different ancestries: the receiver's definition wins,
+// so what is reachable through X is the receiver's chain, whatever the merged list's own objects point at
+func c13Clash(r *fw.Rand) c13Model {
+	mk := func(id string, parent *astisub.Style) *astisub.Style {
+		return &astisub.Style{ID: id, InlineStyle: &astisub.StyleAttributes{TTMLColor: sp("#" + id)}, Style: parent}
+	}
+	a, b := astisub.NewSubtitles(), astisub.NewSubtitles()
+	var desc []string
+	// receiver: X <- a1 <- a2 ... (X's ancestors exist only in A), plus a cue that does not use X
+	var parent *astisub.Style
+	for k := r.Range(1, 3); k >= 1; k-- {
+		parent = mk(fmt.Sprintf("a%d", k), parent)
+		a.Styles[parent.ID] = parent
+	}
+	xa := mk("X", parent)
+	a.Styles["X"] = xa
+	a.Items = append(a.Items, textItem(time.Second, 2*time.Second, "plain"))
+	if r.Bool() {
+		a.Items[0].Style = xa
+		desc = append(desc, "A.cue:X")
+	}
+	// merged list: its own X (no parent, or a chain of its own), E <- X, and a cue reaching E
+	parent = nil
+	for k := r.Intn(3); k >= 1; k-- {
+		parent = mk(fmt.Sprintf("b%d", k), parent)
+		b.Styles[parent.ID] = parent
+	}
+	xb := mk("X", parent)
+	b.Styles["X"] = xb
+	e := mk("E", xb)
+	b.Styles["E"] = e
+	it := textItem(3*time.Second, 4*time.Second, "styled")
+	switch r.Intn(3) {
+	case 0:
+		it.Style = e
+		desc = append(desc, "B.cue:E")
+	case 1:
+		it.Lines[0].Items[0].Style = e
+		desc = append(desc, "B.run:E")
+	default:
+		rg := &astisub.Region{ID: "R", InlineStyle: &astisub.StyleAttributes{}, Style: e}
+		b.Regions["R"] = rg
+		it.Region = rg
+		it.InlineStyle = &astisub.StyleAttributes{}
+		desc = append(desc, "B.cue:R>E")
+	}
+	b.Items = append(b.Items, it)
+	for k := 0; k < r.Intn(3); k++ {
+		u := mk(fmt.Sprintf("unused%d", k), nil)
+		b.Styles[u.ID] = u
+	}
+	a.Merge(b)
+	return c13Model{a, fmt.Sprintf("clash on X: A{%s} + B{%s} %s", keysOf(a.Styles), keysOf(b.Styles), strings.Join(desc, " "))}
+}
+
 // c13Parsed obtains graphs by writing a random model to a format and parsing it back (reader-built graphs)
 func c13Parsed(r *fw.Rand) (c13Model, bool) {
 	m := c13Random(r)
@@ -468,6 +528,38 @@ func init() {
 				r := fw.NewRand(seed)
 				if c.Idx%3 == 2 {
 					return c13Parsed(r)
+				}
+				if c.Idx%8 == 5 {
+					return c13Clash(r), true
+				}
+				if c.Idx%8 == 1 {
+					// a list built by merging two lists that define the same identifiers with different parents
+					a, b := c13Random(r), c13Random(r)
+					a.sub.Merge(b.sub)
+					return c13Model{a.sub, "merged {" + a.desc + "} + {" + b.desc + "}"}, true
+				}
+				if c.Idx%500 == 7 {
+					// one definition referenced by exactly 256 (or 512) cues
+					m := c13Random(r)
+					if len(m.sub.Styles) > 0 && len(m.sub.Items) > 0 {
+						var st *astisub.Style
+						for _, v := range m.sub.Styles {
+							st = v
+							break
+						}
+						n := fw.Pick(r, []int{256, 512})
+						m.sub.Items = m.sub.Items[:0]
+						for k := 0; k < n; k++ {
+							it := textItem(time.Duration(k)*time.Second, time.Duration(k+1)*time.Second, "x")
+							it.Style = st
+							if len(m.sub.Regions) > 0 {
+								it.Region = m.sub.Regions["r0"]
+							}
+							m.sub.Items = append(m.sub.Items, it)
+						}
+						m.desc = fmt.Sprintf("%d cues all referencing %s: %s", n, st.ID, m.desc)
+					}
+					return m, true
 				}
 				return c13Random(r), true
 			}
